@@ -288,9 +288,34 @@ def r06_7(chk):
         # another idiom (textwrap / comprehension over the string) -- accept only what mentions the string itself
         wraps = [c for c in walk_no_nested(fn) if isinstance(c, ast.Call) and (call_name(c) or "").endswith("wrap") and c.args and expr_derives(c.args[0], d)]
         chk.decide(bool(wraps), "R06.7", key(m, "_AlignmentFormatter.slice_string_in_blocks", "covers the whole string"), m.loc(fn), "wraps the given string", "no loop over the given string found")
+    # the bound must depend on the given string ALONE: follow locals back to their definitions and collect the leaves
+    local_defs = {}
+    for st in walk_no_nested(fn):
+        if isinstance(st, ast.Assign) and len(st.targets) == 1 and isinstance(st.targets[0], ast.Name):
+            local_defs.setdefault(st.targets[0].id, []).append(st.value)
+
+    def foreign_leaves(e, seen=()):
+        out = []
+        for n in ast.walk(e):
+            if isinstance(n, ast.Attribute) and isinstance(n.value, ast.Name) and n.value.id == "self":
+                # the block size is a legitimate ingredient of the bound; any other attribute is state shared between sequences
+                if n.attr != "block_size":
+                    out.append(norm(n))
+            elif isinstance(n, ast.Name) and isinstance(n.ctx, ast.Load) and n.id not in (sp, "self", "len", "min", "max", "int", "range") and n.id not in params_of(fn):
+                if n.id in local_defs and n.id not in seen:
+                    for v in local_defs[n.id]:
+                        out.extend(foreign_leaves(v, seen + (n.id,)))
+                elif n.id not in local_defs:
+                    out.append(n.id)
+        return out
+
     for c in ranges:
         stop = c.args[1] if len(c.args) >= 2 else c.args[0]
-        chk.decide(expr_derives(stop, d), "R06.7", key(m, "_AlignmentFormatter.slice_string_in_blocks", f"block loop bound {norm(stop)}"), m.loc(c), f"bound `{norm(stop)}` derives from len({sp})", f"the block loop runs to `{norm(stop)}`, which does not depend on the string being wrapped: a sequence longer than that is silently truncated in GDE/PAML output")
+        foreign = sorted(set(foreign_leaves(stop)))
+        if expr_derives(stop, d) and foreign:
+            chk.violation("R06.7", key(m, "_AlignmentFormatter.slice_string_in_blocks", "block loop bound depends on the string alone"), m.loc(c), f"the block loop bound `{norm(stop)}` also depends on {foreign}: when that shared state (the FIRST sequence's length) is set it replaces the length of the string being wrapped, and a longer sequence of a ragged collection is silently truncated in GDE output")
+        else:
+            chk.decide(expr_derives(stop, d), "R06.7", key(m, "_AlignmentFormatter.slice_string_in_blocks", "block loop bound depends on the string alone"), m.loc(c), f"bound `{norm(stop)}` derives from len({sp}) only", f"the block loop runs to `{norm(stop)}`, which does not depend on the string being wrapped: a sequence longer than that is silently truncated in GDE/PAML output")
     f2 = chk.repo.module("format/fasta.py").func("seqs_to_fasta")
     wraps = [c for c in walk_no_nested(f2) if isinstance(c, ast.Call) and norm(c.func) == "textwrap.wrap"]
     good = bool(wraps) and "seqs[name]" in norm(wraps[0].args[0])
@@ -771,7 +796,60 @@ def r06_11(chk):
     chk.floor("R06.11", 2, "explicit encoding; ASCII not guessed")
 
 
+_MUTATORS = {"pop", "remove", "sort", "reverse", "append", "insert", "clear", "extend", "popleft"}
+_COPIERS = {"list", "tuple", "sorted", "iter", "deque", "collections.deque"}
+
+
+def r06_22(chk):
+    chk.rule("R06.22", "a registered sequence-format parser does not consume the lines it is given: in every function behind parse.sequence.PARSERS the input parameter is never edited in place (pop / remove / del / item store / sort ...) unless the name was first re-bound, unconditionally, to a copy (`data = list(data)`, a slice, splitlines()) -- the line-based entry points accept a caller's list, and a second parser (or a second parse) of the same lines must see the same records")
+    pm = chk.repo.module("parse/sequence.py")
+    node = pm.const("PARSERS")
+    if not isinstance(node, ast.Dict):
+        raise AnalysisError("PARSERS is not a dict literal")
+    targets = {}
+    for v in node.values:
+        e = v
+        if isinstance(e, ast.Call) and call_name(e) == "LineBasedParser" and e.args:
+            e = e.args[0]
+        if isinstance(e, ast.Attribute) and isinstance(e.value, ast.Name):
+            targets[(e.value.id, e.attr)] = True
+    n = 0
+    for modname, fname in sorted(targets):
+        m = chk.repo.module(f"parse/{modname}.py")
+        if not m.has_func(fname):
+            chk.unresolved("R06.22", key(m, fname, "input lines not consumed"), m.rel, "registered parser is not a plain function")
+            continue
+        fn = m.func(fname)
+        ps = [a for a in params_of(fn) if a not in ("self", "cls")]
+        if not ps:
+            continue
+        p0 = ps[0]
+        # first unconditional top-level re-binding of the parameter from a copying expression
+        rebound_at = None
+        for st in fn.body:
+            if isinstance(st, ast.Assign) and any(isinstance(t, ast.Name) and t.id == p0 for t in st.targets):
+                v = st.value
+                copying = (isinstance(v, ast.Call) and ((call_name(v) or "") in _COPIERS or (isinstance(v.func, ast.Attribute) and v.func.attr in ("splitlines", "copy", "split", "readlines")))) or isinstance(v, (ast.ListComp, ast.List)) or (isinstance(v, ast.Subscript) and isinstance(v.slice, ast.Slice))
+                if copying:
+                    rebound_at = st.lineno
+                    break
+        hits = []
+        for c in walk_no_nested(fn):
+            if isinstance(c, ast.Call) and isinstance(c.func, ast.Attribute) and isinstance(c.func.value, ast.Name) and c.func.value.id == p0 and c.func.attr in _MUTATORS:
+                hits.append(c)
+            elif isinstance(c, (ast.Assign, ast.AugAssign, ast.Delete)):
+                for tg in (c.targets if not isinstance(c, ast.AugAssign) else [c.target]):
+                    if isinstance(tg, ast.Subscript) and isinstance(tg.value, ast.Name) and tg.value.id == p0:
+                        hits.append(c)
+        bad = [h for h in hits if rebound_at is None or h.lineno < rebound_at]
+        n += 1
+        k = key(m, fname, "input lines not consumed")
+        chk.decide(not bad, "R06.22", k, m.loc(bad[0] if bad else fn), f"`{p0}` " + ("is copied before it is edited" if hits else "is never edited in place"), f"`{norm(bad[0])[:60] if bad else ''}` edits the caller's `{p0}` (no unconditional copy before it): after one parse the caller's list has lost lines, and the same lines given to this or another parser again give different records or an error")
+    chk.floor("R06.22", 8, "functions behind PARSERS")
+
+
 def run(chk):
+    r06_22(chk)
     r06_21(chk)
     r06_20(chk)
     r06_19(chk)
